@@ -31,6 +31,48 @@ Definition rc_exists (d : db) (rc : Z) : bool :=
 Definition is_std_trait (t : Z) : bool := (0 <=? t) && (t <? n_std_traits).
 Definition trait_exists (d : db) (t : Z) : bool := is_std_trait t || memZ t (traits d).
 
+(* resource classes: standard class i has name token i; custom names have tokens >= 1000 *)
+Definition is_std_rc_name (n : Z) : bool := (0 <=? n) && (n <? n_std_rc).
+Definition rc_id_of_name (d : db) (n : Z) : option Z :=
+  if is_std_rc_name n then Some n
+  else match find (fun x => snd x =? n) (rcs d) with Some x => Some (fst x) | None => None end.
+(* ResourceClass._get_next_id: max(id) + 1, never below MIN_CUSTOM_RESOURCE_CLASS_ID *)
+Definition next_rc_id (d : db) : Z :=
+  let m := fold_right Z.max (n_std_rc - 1) (map fst (rcs d)) in
+  if m <? MIN_CUSTOM_RC_ID then MIN_CUSTOM_RC_ID else m + 1.
+(* ResourceClass.create *)
+Definition rc_create (d : db) (n : Z) : result db :=
+  match rc_id_of_name d n with
+  | Some _ => Err ERcExists
+  | None => Ok (set_rcs d (rcs d ++ [(next_rc_id d, n)]))
+  end.
+(* ResourceClass.destroy *)
+Definition rc_destroy (d : db) (n : Z) : result db :=
+  match rc_id_of_name d n with
+  | None => Err ERcNotFound
+  | Some id =>
+      if id <? MIN_CUSTOM_RC_ID then Err ERcStandard else
+      if existsb (fun i => i_rc i =? id) (invs d) then Err ERcInUse else
+      Ok (set_rcs d (filter (fun x => negb (fst x =? id)) (rcs d)))
+  end.
+(* ResourceClass.save (rename, microversions 1.2 - 1.6) *)
+Definition rc_rename (d : db) (old new : Z) : result db :=
+  match rc_id_of_name d old with
+  | None => Err ERcNotFound
+  | Some id =>
+      if id <? MIN_CUSTOM_RC_ID then Err ERcStandard else
+      if existsb (fun x => (snd x =? new) && negb (fst x =? id)) (rcs d) || is_std_rc_name new then Err ERcExists else
+      Ok (set_rcs d (map (fun x => if fst x =? id then (id, new) else x) (rcs d)))
+  end.
+(* Trait.create / Trait.destroy *)
+Definition trait_create (d : db) (t : Z) : result db :=
+  if trait_exists d t then Err EDuplicate else Ok (set_traits d (traits d ++ [t])).
+Definition trait_destroy (d : db) (t : Z) : result db :=
+  if negb (trait_exists d t) then Err ETraitNotFound else
+  if is_std_trait t then Err ETraitStandard else
+  if existsb (fun x => snd x =? t) (rp_traits d) then Err ETraitInUse else
+  Ok (set_traits d (filter (fun x => negb (x =? t)) (traits d))).
+
 (* ---------------------------------------------------------------- generations *)
 (* ResourceProvider.increment_generation: UPDATE .. SET generation=g+1 WHERE uuid=u AND generation=g; rowcount must be 1 *)
 Fixpoint cas_rp_l (l : list rp) (u g : Z) : option (list rp) :=
